@@ -8,6 +8,7 @@ import CookModel.Driver.StdMeta
 import CookModel.Driver.Ffi
 import CookModel.Driver.Serde
 import CookModel.Driver.Builder
+import CookModel.Driver.Tie
 /- Registry of line-protocol handlers. One line per area. -/
 namespace Cook.Driver
 def handlers : List (List String → Option String) := [
@@ -20,6 +21,7 @@ def handlers : List (List String → Option String) := [
   handleStdMeta,
   handleFfi,
   handleSerde,
-  handleBuilder
+  handleBuilder,
+  handleTie
 ]
 end Cook.Driver
